@@ -244,6 +244,11 @@ def main():
             "def checkerlang_secure_mode() FALSE; %(e)s", "for [checkerlang_secure_mode, z] in [[FALSE, 1]] do %(e)s end", "def f(checkerlang_secure_mode...) do %(e)s end; f(FALSE)",
             "eval('def checkerlang_secure_mode = FALSE'); %(e)s", "require c09flag; %(e)s", "set_secure_mode(FALSE); %(e)s", "bind_native('checkerlang_secure_mode'); %(e)s",
             "def g() do def checkerlang_secure_mode = FALSE; %(e)s end; g()",
+            # destructuring assignment with the flag at every position, a source that is too short (NULL is assigned), a set as source
+            "def x = 0; [x, checkerlang_secure_mode] = [0, FALSE]; %(e)s", "def x = 0; def y = 0; [x, y, checkerlang_secure_mode] = [0, 0, FALSE]; %(e)s",
+            "def x = 0; [x, checkerlang_secure_mode] = [1]; %(e)s", "def x = 0; [x, checkerlang_secure_mode] = <<FALSE>>; %(e)s", "def x = 0; [checkerlang_secure_mode, x] = [FALSE, 0]; %(e)s",
+            "def x = 0; def f() do [x, checkerlang_secure_mode] = [0, FALSE] end; f(); %(e)s", "def x = 0; [x, checkerlang_secure_mode, x] = [0, FALSE, 0]; %(e)s",
+            "def [x, checkerlang_secure_mode] = [0, FALSE]; %(e)s", "def x = 0; [x, checkerlang_module_path, checkerlang_secure_mode] = [0, [], FALSE]; %(e)s",
             # compound assignments desugar to calls of add / sub / mul / div / mod looked up by name
             "def add(a, b) FALSE; checkerlang_secure_mode += 1; %(e)s", "def sub(a, b) FALSE; checkerlang_secure_mode -= 1; %(e)s",
             "def mul(a, b) FALSE; checkerlang_secure_mode *= 1; %(e)s", "def div(a, b) FALSE; checkerlang_secure_mode /= 1; %(e)s",
